@@ -195,3 +195,9 @@ impl ContainedColumns {
         self.0 & (1 << column) != 0
     }
 }
+
+/// Verification hook (`--cfg rosu_pp_verif`): the private `column_to_pos`.
+#[cfg(rosu_pp_verif)]
+pub fn verif_column_to_pos(column: u8, total_columns: i32) -> f32 {
+    column_to_pos(column, total_columns)
+}
